@@ -677,6 +677,17 @@ func TestCheck(t *testing.T) {
 			jobs = append(jobs, job{s: s, form: s.id % 2, lk: shortKey, clk: s.id % 4, hist: []step{{}}, phase: "S"})
 		}
 	}
+	// ... and log keys on other curves / of other types (outside what RFC 6962 lets a log use, but "a signature that
+	// verifies under that key" is demanded of every 200): P-384 and Ed25519, on a third of the reduced shapes
+	if !th {
+		for _, lk := range []*pki.Key{pki.LoadKey("p384-1"), pki.LoadKey("ed25519-1")} {
+			for _, s := range w.shapes {
+				if reduced(s, th) && s.val == "utc" && s.id%3 == 0 {
+					jobs = append(jobs, job{s: s, form: s.id % 2, lk: lk, clk: s.id % 4, hist: []step{{}}, phase: "S"})
+				}
+			}
+		}
+	}
 	nS := len(jobs)
 	// ---- phase H: all histories of depth 3 on the reduced shape set
 	var red []*shape
